@@ -52,6 +52,13 @@ claim("C15",
       "is not decided.",
       COMMON_NOTE, "all-paths event counting (short-circuit aware) + path conditions + sibling agreement + polynomial normal forms", "DESIGN.md section 3 C15")
 
+claim("C14",
+      "Static conformance analysis (partial, exact): frozen owners of Core.childrenByLocator/assembliesByName/blocksByName over the whole tree; Core.add and "
+      "Core.removeAssembly performing each table update exactly once on every normal path (removed assembly pooled xor purged); swapAssemblies' saved-locator idiom and "
+      "order; Assembly.moveTo re-keying; cross pairing of stationary blocks; dischargeSwap order. Core.add registering before its refusal tests is a recorded known finding. "
+      "Inventory equality over shuffle histories is not decided.",
+      COMMON_NOTE, "ast ownership (who-may-write) + all-paths event counting + ordering", "DESIGN.md section 3 C14")
+
 NA_REASON = {}
 
 
